@@ -45,7 +45,9 @@ class Geometry:
         hp = F(self.oh) * self.pr
         if hp <= fh:
             return True
-        if hp > fh + F(1, 2):  # exactly +1/2 is a rounding tie (half-even vs half-up): unspecified
+        # exactly +1/2 is a rounding tie (half-even vs half-up); the library works in floats, so a value
+        # within float rounding distance of the tie (e.g. 5 * (0.45 * 2)) is a tie too: unspecified
+        if hp > fh + F(1, 2) + F(1, 10**9):
             return False
         return None
 
